@@ -809,11 +809,105 @@ def tr_gen_order(tree):
             + go(blk[0].body, {}) + ".")
 
 
-HEADER = """(* GENERATED by vlib/translator/leaf.py from /repo/src/ovld/{mro,typemap,dependent,types}.py on every run -- do not edit.
+# ---- generate_dependent_dispatch (recode.py): the two decisions that pick the strategy --------------------------------
+def _cmp_nat(e, names):
+    def num(t):
+        src = ast.unparse(t)
+        if src in names:
+            return names[src]
+        if isinstance(t, ast.Constant) and isinstance(t.value, int) and not isinstance(t.value, bool) and 0 <= t.value < 100:
+            return str(t.value)
+        raise Unsupported("operand " + src[:40])
+    if isinstance(e, ast.Compare) and len(e.ops) == 1:
+        a, b = num(e.left), num(e.comparators[0])
+        tbl = {ast.Eq: f"Nat.eqb {a} {b}", ast.NotEq: f"negb (Nat.eqb {a} {b})", ast.Lt: f"Nat.ltb {a} {b}", ast.Gt: f"Nat.ltb {b} {a}",
+               ast.LtE: f"Nat.leb {a} {b}", ast.GtE: f"Nat.leb {b} {a}"}
+        if type(e.ops[0]) in tbl:
+            return "(" + tbl[type(e.ops[0])] + ")"
+    if isinstance(e, ast.BoolOp):
+        return "(" + (" && " if isinstance(e.op, ast.And) else " || ").join(_cmp_nat(v, names) for v in e.values) + ")"
+    if isinstance(e, ast.UnaryOp) and isinstance(e.op, ast.Not):
+        return "negb (" + _cmp_nat(e.operand, names) + ")"
+    raise Unsupported("condition " + ast.unparse(e)[:60])
+
+
+def tr_keyable(tree):
+    """inside `if getattr(focus, "keyable_type", False):` -- the chain over len(keyed) / sum(map(len, all_keys)) / len(featured)
+    whose branches set exclusive / keyexpr / keyed -> keyable_src (distinct nkeyed nfeat : nat) : kchoice"""
+    fn = None
+    for n in tree.body:
+        if isinstance(n, ast.FunctionDef) and n.name == "generate_dependent_dispatch":
+            fn = n
+    if fn is None:
+        raise Unsupported("generate_dependent_dispatch not found")
+    hits = [n for n in ast.walk(fn) if isinstance(n, ast.If) and ast.unparse(n.test) in ("getattr(focus, 'keyable_type', False)", 'getattr(focus, "keyable_type", False)')]
+    if len(hits) != 1:
+        raise Unsupported("the keyable branch")
+    chain = hits[0].body[-1]
+    if not isinstance(chain, ast.If):
+        raise Unsupported("no decision chain in the keyable branch")
+    names = {"len(keyed)": "distinct", "sum(map(len, all_keys))": "nkeyed", "len(featured)": "nfeat"}
+    KINDS = {frozenset(["exclusive = False", "keyexpr = keyed = None"]): "KCount", frozenset(["exclusive = False", "keyed = keyexpr = None"]): "KCount",
+             frozenset(["exclusive = True", "keyexpr = None"]): "KChain",
+             frozenset(["keyexpr = focus.keygen().format(arg=argname(k))"]): "KTable"}
+
+    def go(b):
+        b = [st for st in b if not (isinstance(st, ast.Expr) and isinstance(st.value, ast.Constant))]
+        if len(b) == 1 and isinstance(b[0], ast.If):
+            i = b[0]
+            if not i.orelse:
+                raise Unsupported("if without else")
+            return f"(if {_cmp_nat(i.test, names)} then {go(i.body)} else {go(i.orelse)})"
+        key = frozenset(ast.unparse(st) for st in b)
+        if key in KINDS:
+            return KINDS[key]
+        raise Unsupported("branch " + "; ".join(sorted(key))[:80])
+    return "Definition keyable_src (distinct nkeyed nfeat : nat) : kchoice :=\n  " + go([chain]) + "."
+
+
+def tr_final_choice(tree):
+    """if keyexpr: <table> elif exclusive: <if-chain> else: <counting>  -> final_src (haskey exclusive : bool) : kchoice"""
+    fn = None
+    for n in tree.body:
+        if isinstance(n, ast.FunctionDef) and n.name == "generate_dependent_dispatch":
+            fn = n
+    if fn is None:
+        raise Unsupported("generate_dependent_dispatch not found")
+    tops = [st for st in fn.body if isinstance(st, ast.If) and ast.unparse(st.test) in ("keyexpr", "exclusive", "not keyexpr", "not exclusive")]
+    if len(tops) != 1:
+        raise Unsupported("the final strategy chain")
+
+    def kind(b):
+        src = "\n".join(ast.unparse(st) for st in b)
+        marks = {"KTable": ".get(" in src and "FALLTHROUGH" in src, "KChain": "if {conj}: return HANDLER" in src, "KCount": "SUMMATION" in src}
+        got = [k for k, v in marks.items() if v]
+        if len(got) != 1:
+            raise Unsupported("strategy branch not recognised")
+        return got[0]
+
+    def cond(e):
+        src = ast.unparse(e)
+        tbl = {"keyexpr": "haskey", "exclusive": "exclusive", "not keyexpr": "negb haskey", "not exclusive": "negb exclusive"}
+        if src in tbl:
+            return tbl[src]
+        if isinstance(e, ast.BoolOp):
+            return "(" + (" && " if isinstance(e.op, ast.And) else " || ").join(cond(v) for v in e.values) + ")"
+        raise Unsupported("condition " + src[:40])
+
+    def go(i):
+        els = i.orelse
+        if not els:
+            raise Unsupported("if without else")
+        rest = go(els[0]) if len(els) == 1 and isinstance(els[0], ast.If) else kind(els)
+        return f"(if {cond(i.test)} then {kind(i.body)} else {rest})"
+    return "Definition final_src (haskey exclusive : bool) : kchoice :=\n  " + go(tops[0]) + "."
+
+
+HEADER = """(* GENERATED by vlib/translator/leaf.py from /repo/src/ovld/{mro,typemap,dependent,types,recode}.py on every run -- do not edit.
    Proofs/LeafAgree.v proves these equal to the hand-written definitions the model uses. *)
 From Coq Require Import ZArith List Bool Arith.
 Import ListNotations.
-From OvldV Require Import Model.Order Model.Ty Model.Resolve Model.Cache.
+From OvldV Require Import Model.Order Model.Ty Model.Resolve Model.Cache Model.Dep.
 
 Fixpoint all2_src (f : nat -> nat -> bool) (l1 l2 : list nat) : bool :=
   match l1, l2 with
@@ -838,6 +932,8 @@ FALLBACK = {
     "level": "Definition level_index_src (nr r : nat) : nat := level_index nr r.",
     "gen_sub": "Definition gen_sub_src (osub plain : bool) (n1 n2 : nat) (args_ok : bool) : bool := gen_sub_decide osub plain n1 n2 args_ok.",
     "gen_order": "Definition gen_order_src (o2p : bool) (ot2 oo : order) (e1 e2 : bool) (n1 n2 : nat) (merged : order) : order := gen_order_decide o2p ot2 oo e1 e2 n1 n2 merged.",
+    "keyable": "Definition keyable_src (distinct nkeyed nfeat : nat) : kchoice := keyable_decide distinct nkeyed nfeat.",
+    "final_choice": "Definition final_src (haskey exclusive : bool) : kchoice := final_choice haskey exclusive.",
     "tail": "Definition cls_tail_src (s12 s21 : bool) : order := if s12 && s21 then SAME else if s12 then LESS else if s21 then MORE else NONE.",
 }
 
@@ -850,8 +946,9 @@ def regenerate():
         tm_tree = ast.parse(open(os.path.join(REPO_SRC, "ovld", "typemap.py")).read())
         dep_tree = ast.parse(open(os.path.join(REPO_SRC, "ovld", "dependent.py")).read())
         ty_tree = ast.parse(open(os.path.join(REPO_SRC, "ovld", "types.py")).read())
+        rc_tree = ast.parse(open(os.path.join(REPO_SRC, "ovld", "recode.py")).read())
     except Exception as e:  # noqa
-        mro_tree = tm_tree = dep_tree = ty_tree = None
+        mro_tree = tm_tree = dep_tree = ty_tree = rc_tree = None
         notes["parse"] = f"not translated: {e}"
     jobs = [("opposite", lambda: tr_opposite(_find(mro_tree, "Order", "opposite"))),
             ("merge", lambda: tr_merge(_find(mro_tree, "Order", "merge"))),
@@ -865,6 +962,8 @@ def regenerate():
             ("gen_order", lambda: tr_gen_order(mro_tree)),
             ("edge", lambda: tr_edge(mro_tree)),
             ("level", lambda: tr_level(tm_tree)),
+            ("keyable", lambda: tr_keyable(rc_tree)),
+            ("final_choice", lambda: tr_final_choice(rc_tree)),
             ("dep_lt", lambda: tr_dep_lt(dep_tree)),
             ("dep_order", lambda: tr_dep_order(dep_tree)),
             ("union_order", lambda: _tr_member_order(ty_tree, "Union", "union_order_src")),
@@ -875,7 +974,7 @@ def regenerate():
             parts.append(job())
             notes[name] = "translated"
         except Exception as e:  # noqa: fail open
-            parts.append("(* not translated: " + str(e).replace("*)", "* )")[:200] + " *)\n" + FALLBACK[name])
+            parts.append("(* not translated: " + str(e).replace("*)", "* )").replace("(*", "( *").replace('"', "'")[:200] + " *)\n" + FALLBACK[name])
             notes[name] = f"not translated ({type(e).__name__}: {str(e)[:80]})"
             ok = False
     parts.append(f"Definition leaf_translated : bool := {'true' if ok else 'false'}.")
